@@ -2,10 +2,12 @@
 // gram's own modules, pulled in at the crate root by build.rs (see DESIGN.md 1.1).
 include!(concat!(env!("OUT_DIR"), "/gram_mods.rs"));
 
+pub mod bridge;
 pub mod checks;
 pub mod dterm;
 pub mod gens;
 pub mod refs;
 pub mod runner;
+pub mod sast;
 pub mod tok;
 pub mod util;
